@@ -242,7 +242,19 @@ def naming_rule(crate, prop, rule="C09.R2"):
                 r.fail(prop, "conversion-role %s" % fn_path, "a %s naming site uses %s" % (role, (M.callee(t) or "").split("::")[-1]), f, l)
             if not unrawed or rawtxt:
                 r.fail(prop, "raw-identifier-name %s" % fn_path.split("::", 1)[-1], "the identifier given to the rename_all conversion does not come from to_ts_ident(..)/unraw(): `r#type` would be converted and emitted with its `r#`", f, l)
+        # closures of the naming function (`.unwrap_or_else(|| ..)`) are part of the site: the kind of conversion is checked there too
+        grp = crate.owned_by(fn_path)
+        for cb in crate.bodies:
+            if cb.kind == "Closure" and cb.path in grp:
+                for blk, t in cb.calls():
+                    if not cb.is_cleanup(blk) and fn_matches(t, r"attr::Inflection::apply\w*$") and fn_matches(t, bad):
+                        f, l = M.user_span(t["span"])
+                        r.inst(fn=cb.path, role=role, where="%s:%s" % (f, l), conversion=M.callee(t))
+                        r.fail(prop, "conversion-role %s" % fn_path, "a %s naming site uses %s" % (role, (M.callee(t) or "").split("::")[-1]), f, l)
         if not own_applies:
+            if any(fn_matches(t, r"attr::Inflection::apply\w*$") for cb in crate.bodies if cb.kind == "Closure" and cb.path in grp for _, t in cb.calls()):
+                r.inst(fn=fn_path, role=role, note="the conversion is applied inside a closure: precedence undecided")
+                continue
             r.fail(prop, "anchor-missing conversion %s" % fn_path, "no rename_all conversion at this naming site", b.file(), b.line())
             continue
         # the multi-definition local the conversions flow into
